@@ -218,8 +218,9 @@ def ltf_plan(**args):
     for j in range(nf):
         L_j = int(L_arr[j])
         L_arr[j] = L_j
-        averages = int(round_half_up(((N - L_j) / (1 - olap)) / L_j + 1))
+        averages = int(round_half_up((N - L_j) / (xov * L_j) + 1))
         navg_arr.append(averages)
+        K_arr[j] = averages
 
         if averages == 1:
             shift = 1.0
